@@ -441,7 +441,7 @@ func prepareCall(fr *frame, call *ssa.CallCommon) (fn value, args []value) {
 		}
 		if f := lookupMethod(fr.i, recv.t, call.Method); f == nil {
 			// Unreachable in well-typed programs.
-			panic(fmt.Sprintf("method set for dynamic type %v does not contain %s", recv.t, call.Method))
+			panic(engineAbort{kind: abortUnsupported, msg: fmt.Sprintf("engine: method set for dynamic type %v does not contain %s", recv.t, call.Method)})
 		} else {
 			fn = f
 		}
@@ -481,7 +481,7 @@ func loc(fset *token.FileSet, pos token.Pos) string {
 // callSSA interprets a call to function fn with arguments args,
 // and lexical environment env, returning its result.
 // callpos is the position of the callsite.
-func callSSA(i *interpreter, caller *frame, callpos token.Pos, fn *ssa.Function, args []value, env []value) value {
+func callSSA(i *interpreter, caller *frame, callpos token.Pos, fn *ssa.Function, args []value, env []value, noModel ...bool) value {
 	if i.mode&EnableTracing != 0 {
 		fset := fn.Prog.Fset
 		// TODO(adonovan): fix: loc() lies for external functions.
@@ -502,7 +502,7 @@ func callSSA(i *interpreter, caller *frame, callpos token.Pos, fn *ssa.Function,
 		if fn.Origin() != nil {
 			name = fn.Origin().String()
 		}
-		if ext := externals[name]; ext != nil {
+		if ext := externals[name]; ext != nil && len(noModel) == 0 {
 			i.models[name]++
 			return ext(fr, args)
 		}
